@@ -3,6 +3,7 @@
 //!   lossless <w> <h> <hex>          -> verdict of LosslessImage::read over the given body bytes
 //!   wcount <reader> <allow> <len> <exts>                 -> n=<inner operations of the fault-free run> <result>
 //!   wfault <k> <kind> <reader> <allow> <len> <exts>      -> result when the k-th inner operation fails with <kind>
+//!   wmeter <reader> <allow> <len> <exts>                 -> <result> | heap=<peak heap of the call> read=<bytes read> maxreq=<largest read request>
 //! (inner operations = read / skip / stream_position / stream_len calls on the input, below webpsan's own BufReaders)
 #[path = "common.rs"]
 mod common;
@@ -12,10 +13,96 @@ mod lib_readers;
 use bitstream_io::LE;
 use lib_readers::{io_kind, Sparse};
 use mediasan_common::Skip;
+use std::alloc::{GlobalAlloc, Layout, System};
 use std::io::{self, Read};
+use std::sync::atomic::{AtomicUsize, Ordering};
 use std::num::NonZeroU32;
 use webpsan::parse::{BitBufReader, LosslessImage, ParseError};
 use webpsan::{Config, Error};
+
+// ---------------------------------------------------------------------------------------------- counting allocator
+struct Counting;
+static CUR: AtomicUsize = AtomicUsize::new(0);
+static PEAK: AtomicUsize = AtomicUsize::new(0);
+
+unsafe impl GlobalAlloc for Counting {
+    unsafe fn alloc(&self, l: Layout) -> *mut u8 {
+        let p = System.alloc(l);
+        if !p.is_null() {
+            let c = CUR.fetch_add(l.size(), Ordering::Relaxed) + l.size();
+            PEAK.fetch_max(c, Ordering::Relaxed);
+        }
+        p
+    }
+    unsafe fn dealloc(&self, p: *mut u8, l: Layout) {
+        System.dealloc(p, l);
+        CUR.fetch_sub(l.size(), Ordering::Relaxed);
+    }
+    unsafe fn alloc_zeroed(&self, l: Layout) -> *mut u8 {
+        let p = System.alloc_zeroed(l);
+        if !p.is_null() {
+            let c = CUR.fetch_add(l.size(), Ordering::Relaxed) + l.size();
+            PEAK.fetch_max(c, Ordering::Relaxed);
+        }
+        p
+    }
+    unsafe fn realloc(&self, p: *mut u8, l: Layout, new: usize) -> *mut u8 {
+        let q = System.realloc(p, l, new);
+        if !q.is_null() {
+            if new >= l.size() {
+                let c = CUR.fetch_add(new - l.size(), Ordering::Relaxed) + (new - l.size());
+                PEAK.fetch_max(c, Ordering::Relaxed);
+            } else {
+                CUR.fetch_sub(l.size() - new, Ordering::Relaxed);
+            }
+        }
+        q
+    }
+}
+
+#[global_allocator]
+static GLOBAL: Counting = Counting;
+
+/// Read+Skip wrapper that records how much is read and the largest single request
+struct Meter {
+    inner: Sparse,
+    read: u64,
+    maxreq: u64,
+}
+
+impl Read for Meter {
+    fn read(&mut self, buf: &mut [u8]) -> io::Result<usize> {
+        self.maxreq = self.maxreq.max(buf.len() as u64);
+        let n = self.inner.read(buf)?;
+        self.read += n as u64;
+        Ok(n)
+    }
+}
+
+impl Skip for Meter {
+    fn skip(&mut self, amount: u64) -> io::Result<()> {
+        self.inner.skip(amount)
+    }
+    fn stream_position(&mut self) -> io::Result<u64> {
+        self.inner.stream_position()
+    }
+    fn stream_len(&mut self) -> io::Result<u64> {
+        self.inner.stream_len()
+    }
+}
+
+fn run_wmeter(args: &[&str]) -> String {
+    let (rd, allow, len, exts) = (args[0], args[1], args[2], args[3]);
+    let sp = Sparse::new(len.parse().unwrap(), Sparse::parse_exts(exts), rd == "strict");
+    let cfg = Config::builder().allow_unknown_chunks(allow == "1").build();
+    let mut m = Meter { inner: sp, read: 0, maxreq: 0 };
+    let base = CUR.load(Ordering::Relaxed);
+    PEAK.store(base, Ordering::Relaxed);
+    let r = webpsan::sanitize_with_config(&mut m, cfg);
+    let peak = PEAK.load(Ordering::Relaxed).saturating_sub(base);
+    let res = show(r);
+    format!("{res} | heap={peak} read={} maxreq={}", m.read, m.maxreq)
+}
 
 pub fn show_err(e: Error) -> String {
     match e {
@@ -145,6 +232,13 @@ fn main() {
     common::main_loop(|kind, args| match kind {
         "webp" => run_webp(args),
         "lossless" => run_lossless(args),
+        "wmeter" => run_wmeter(args),
+        "sizes" => format!(
+            "entry_u8={} entry_u16={} entry_u32={}",
+            std::mem::size_of::<bitstream_io::huffman::ReadHuffmanTree<LE, u8>>(),
+            std::mem::size_of::<bitstream_io::huffman::ReadHuffmanTree<LE, u16>>(),
+            std::mem::size_of::<bitstream_io::huffman::ReadHuffmanTree<LE, u32>>()
+        ),
         "wcount" => {
             let (n, r) = run_wfault(None, args);
             format!("n={n} {r}")
